@@ -504,6 +504,41 @@ def select_api(root, expr: str, pv: str, proxy, ns=None, item=None):
     return r if isinstance(r, list) else [r]
 
 
+def entry_eval(entry: str, doc, expr: str, pv: str, proxy):
+    """the same evaluation through one of the public entry points (SchemaTyping: EntryPoints); the schema goes to
+    the parser (Selector(schema=..) / select(schema=..)), to the call (`+call`: the Selector has none), or both"""
+    import elementpath
+    from elementpath import Selector
+    cls = parsers()[pv]
+    kw = {} if doc.ctxroot is doc.root else {'item': doc.root}
+    try:
+        if entry == 'select':
+            r = elementpath.select(doc.ctxroot, expr, namespaces=doc.ns, parser=cls, schema=proxy, **kw)
+        elif entry == 'iter_select':
+            r = list(elementpath.iter_select(doc.ctxroot, expr, namespaces=doc.ns, parser=cls, schema=proxy, **kw))
+        elif entry == 'Selector.select':
+            r = Selector(expr, namespaces=doc.ns, parser=cls, schema=proxy).select(doc.ctxroot, **kw)
+        elif entry == 'Selector.iter_select':
+            r = list(Selector(expr, namespaces=doc.ns, parser=cls, schema=proxy).iter_select(doc.ctxroot, **kw))
+        elif entry == 'Selector.select+call':
+            r = Selector(expr, namespaces=doc.ns, parser=cls).select(doc.ctxroot, schema=proxy, **kw)
+        elif entry == 'Selector.iter_select+call':
+            r = list(Selector(expr, namespaces=doc.ns, parser=cls).iter_select(doc.ctxroot, schema=proxy, **kw))
+        elif entry == 'token.get_results':
+            r = cls(namespaces=doc.ns, schema=proxy).parse(expr).get_results(doc.context(proxy))
+        elif entry == 'token.select_results':
+            r = list(cls(namespaces=doc.ns, schema=proxy).parse(expr).select_results(doc.context(proxy)))
+        else:
+            raise tla.MachineryError(f'unknown entry point {entry}')
+    except RecursionError:
+        return ('escaped', 'RecursionError')
+    except tla.MachineryError:
+        raise
+    except Exception as e:  # noqa
+        return err_class(e)
+    return r if isinstance(r, list) else [r]
+
+
 # ---------------------------------------------------------------------------------------
 # projections: real value -> abstract
 
@@ -733,6 +768,7 @@ def check_fresh(vec, slot, S, xsd, version, lib, pv, doc: Doc, fails: list, stat
     classes = value_classes(version)
     ctx = doc.context(proxy)
     nodes = find_nodes(ctx.root, doc)
+    entries = sorted(vec['entries'])
     base = dict(mode='fresh', xsd=version, lib=lib, parser=pv)
     case0 = dict(kind='fresh', xsd_text=xsd, xml=doc.xml(), version=version, lib=lib, parser=pv, f=[dict(x) for x in vec['f']])
     for k_, v_ in (('env', doc.env), ('nsplace', doc.nsplace), ('nons', doc.nons)):
@@ -767,6 +803,16 @@ def check_fresh(vec, slot, S, xsd, version, lib, pv, doc: Doc, fails: list, stat
             if out:
                 fails.append((dict(base, probe='data', outcome=out, **node_features(vec, n)),
                               dict(case0, path=path, expr=f'data({path})'), a['tv'], repr(obs)))
+            elif not doc.nons:
+                # ... and through every public entry point in turn (the typed value does not depend on it)
+                stats['ep'] = stats.get('ep', 0) + 1
+                entry = entries[stats['ep'] % len(entries)]
+                obs = entry_eval(entry, doc, f'data({path})', pv, proxy)
+                stats['evaluations'] += 1
+                out = cmp_values(a['tv'], obs, classes)
+                if out:
+                    fails.append((dict(base, probe='data', outcome=out, entry=entry, **node_features(vec, n)),
+                                  dict(case0, path=path, expr=f'data({path})', entry=entry), a['tv'], repr(obs)))
         # instance of element(*, Q) / attribute(*, Q)
         kt = 'attribute' if nd['k'] in ('xa', 'xc') else 'element'
         for q in QUERY:
@@ -814,7 +860,10 @@ def check_fresh(vec, slot, S, xsd, version, lib, pv, doc: Doc, fails: list, stat
         stats['evaluations'] += 1
         out = probe_outcome(vec['suma'], obs, classes)
         if out:
-            first = next(n for n, nd in enumerate(vec['f'], 1) if nd['s'] == 'kid' and nd['k'] == 'ea')
+            aks = [n for n, nd in enumerate(vec['f'], 1) if nd['s'] == 'kid' and nd['k'] == 'ea']
+            # attribute the failure to the operand that is known to have a wrong typed value, if there is one
+            first = next((n for n in aks if flag_of(vec, n) == 'nil' or (flag_of(vec, n) == 'default' and vec['f'][n - 1]['i'] == 3)),
+                         aks[0])
             fails.append((dict(base, probe='sum', outcome=out, **node_features(vec, first)), dict(case0, expr='sum(a)'),
                           vec['suma'], repr(obs)))
     # ---- value comparisons of nodes whose values do not fit a double (exact: they use the typed value)
@@ -874,6 +923,52 @@ def check_fresh(vec, slot, S, xsd, version, lib, pv, doc: Doc, fails: list, stat
              for a in e.attributes if (id(e.value), a.name) not in doc.key2id and not a.name.startswith('{' + XSI)]
     if extra:
         fails.append((dict(base, probe='extra_attribute'), dict(case0), [], extra))
+
+
+def check_items(vec, xsd, version, lib, pv, fails: list, stats: dict):
+    """dynamic contexts WITHOUT a root: the context item is an element, attribute or text node of an already built,
+    untyped node tree (SchemaTyping: CtxItems); the probe navigates from the item to the typed kid"""
+    from elementpath import XPathContext, get_node_tree
+    import elementpath
+    _, proxy = get_schema(xsd, version)
+    classes = value_classes(version)
+    base = dict(mode='fresh', xsd=version, lib=lib, parser=pv)
+    for n, (nd, a) in enumerate(zip(vec['f'], vec['typed']), 1):
+        if nd['s'] != 'kid' or a['tv'] == NOVALUE or a['nilled'] or flag_of(vec, n) != 'plain':
+            continue
+        for kind in sorted(vec['items']):
+            doc = Doc(vec['f'], lib)
+            tree = get_node_tree(doc.root, namespaces=NS)         # built before any schema is known
+            nodes = find_nodes(tree, doc)
+            if kind == 'element':
+                item, rel = nodes[n], '.'
+            elif kind == 'text':
+                item, rel = next((c for c in nodes[n].children if c.node_kind == 'text'), None), '..'
+            else:
+                item, rel = next((nodes[m] for m, x in enumerate(vec['f'], 1) if x['par'] == n and x['s'] == 'katt' and m in nodes), None), '..'
+            if item is None:
+                continue
+            q = next((t for t in ('int', 'integer', 'decimal', 'string', 'date', 'boolean') if t in vec['iof'][n - 1]), None)
+            for expr, want in ((f'data({rel})', None), (f'{rel} instance of element(*, {qn(q)})' if q else None, True)):
+                if expr is None:
+                    continue
+                for api in ('token', 'select'):
+                    if api == 'token':
+                        obs = evaluate(expr, pv, proxy, XPathContext(root=None, item=item, namespaces=NS, schema=proxy))
+                    else:
+                        try:
+                            obs = elementpath.select(None, expr, namespaces=NS, parser=parsers()[pv], item=item, schema=proxy)
+                            obs = obs if isinstance(obs, list) else [obs]
+                        except Exception as e:  # noqa
+                            obs = err_class(e)
+                    stats['evaluations'] += 1
+                    out = cmp_values(a['tv'], obs, classes) if want is None else \
+                        (None if obs == [True] else f'{obs[0]}:{obs[1]}' if isinstance(obs, tuple) else 'missing')
+                    if out:
+                        fails.append((dict(base, probe='ctx_item', item=kind, api=api, outcome=out, **node_features(vec, n)),
+                                      dict(kind='ctx_item', xsd_text=xsd, xml=doc.xml(), version=version, lib=lib, parser=pv,
+                                           expr=expr, item=kind, f=[dict(x) for x in vec['f']]),
+                                      a['tv'] if want is None else True, repr(obs)))
 
 
 USER_TYPES = ('small', 'ilist', 'u', 'ud', 'v', 'sc')
@@ -1136,6 +1231,8 @@ def walk_worker(job):
                     for lib2, pv2 in (('lxml' if lib == 'etree' else 'etree', '3.0'),):
                         check_fresh(vec, slot, S, xsd, version, lib2, pv2,
                                     Doc(vec['f'], lib2, env=envs[(tid + 1) % len(envs)]), fails, stats, False)
+                if tier == 'thorough' or (tid + slot + (version == '1.1')) % 3 == 1:
+                    check_items(vec, xsd, version, lib, pv, fails, stats)
                 if tier == 'thorough' or (tid + slot) % 3 == 0:
                     check_nons(vec, S, version, lib, pv, fails, stats, oracle)
                     if oracle:
